@@ -57,4 +57,21 @@ PLAN = {
             {"name": "native", "flavour": "native", "shards": 4, "shards_thorough": 16},
         ],
     },
+    "C01": {
+        "level": "exploration",
+        "rule": "seeded per-thread programs (4-34 ops, nesting depth 1-5, 1-4 threads) over Install/DropGuard(any order)/Forget/"
+                "with_local_recorder/guard-escaping-a-closure/panic+catch_unwind/Emit, where Emit ranges over a compiled table of 18 "
+                "macro shapes x 3 kinds + 4 describe shapes x 3 kinds; after every emission the logging doubles' logs are compared "
+                "with a scope model (innermost live install, else global double, else nothing). case = program; distinct = program "
+                "hash; non-trivial = contains a non-LIFO guard end, a forget, a panic unwinding through a scope, or runs beside other threads. "
+                "ASan/Miri legs free each recorder the moment the model says its last borrow ended.",
+        "assumptions": ["scope model: the recorder in scope is the most recently installed one whose guard/closure is still alive",
+                        "after mem::forget(guard) only the 'never dispatched after the borrow ended' clause is judged on that thread"],
+        "legs": [
+            {"name": "native", "flavour": "native", "shards": 4, "shards_thorough": 16},
+            {"name": "native-global", "flavour": "native", "shards": 4, "shards_thorough": 16},
+            {"name": "asan", "flavour": "asan", "shards": 4, "shards_thorough": 16},
+            {"name": "miri", "flavour": "miri", "shards": 8, "shards_thorough": 64, "timeout": 1200},
+        ],
+    },
 }
